@@ -187,12 +187,6 @@ def correspondence(ctx):
 
 def oracle(ctx):
     results = _run(ctx)
-    broken = any(f.kind in ("translator", "coq", "assumptions") for f in ctx.failures)
-    if broken and not getattr(ctx, "c05_deep", False) and not ctx.thorough():
-        # an obligation broke: look harder for a concrete failing crash point (common.py only calls
-        # search() when no failure carries a witness, and the D6 witnesses always do)
-        ctx.c05_deep = True
-        results = results + _deep(ctx)
     reported: dict = {}
     for case, ref, pr in _points(results):
         if ref["error"] is not None:
@@ -239,10 +233,10 @@ def _deep(ctx):
 
 
 def search(ctx):
-    if not getattr(ctx, "c05_deep", False):
-        ctx.c05_deep = True
-        ctx.c05_results = _deep(ctx)
-        oracle(ctx)
+    """An obligation broke and nothing above produced a new concrete witness: every crash point of
+    six more projects."""
+    ctx.c05_results = _deep(ctx)
+    oracle(ctx)
 
 
 def replay(ctx, obj):
